@@ -123,8 +123,8 @@ pub fn replay(ctx: &Arc<Ctx>, v: &Value) {
 
 pub fn run(ctx: &Arc<Ctx>) {
     refmodels::selftest::run(&["zuc"]).unwrap_or_else(|e| ctx.machinery_error(format!("reference self-test failed: {}", e)));
-    let lmax = 600u32;
-    ctx.set_rule("LENGTH every value 0..=600 (EIA3) / 1..=600 (EEA3) x (bearer, direction) x key/COUNT in {test-set values, seeded} x message in {zero, ones, seeded} held in a buffer of ceil(LENGTH/32)+{0,1,2} words; EIA3 additionally every single-bit flip of the message over all 32*ceil(LENGTH/32) positions for every LENGTH <= 96 and every 37th after; long LENGTHs {2079, 5670, 16384, 65535, 65536, 65568, 100001}. quick: all lengths with 4 (bearer,direction) pairs + all 64 pairs at 9 lengths; thorough: full product. Oracle: bit-level EEA3/EIA3 over the independent ZUC, pinned by 3GPP test sets.");
+    let lmax = ctx.tier.pick(600u32, 2100);
+    ctx.set_rule("LENGTH every value 0..=600 (EIA3) / 1..=600 (EEA3) (thorough: 2100) x (bearer, direction) x key/COUNT in {test-set values, seeded} x message in {zero, ones, seeded} held in a buffer of ceil(LENGTH/32)+{0,1,2} words; EIA3 additionally every single-bit flip of the message over all 32*ceil(LENGTH/32) positions for every LENGTH <= 96 and every 37th after; long LENGTHs {2079, 5670, 16384, 65535, 65536, 65568, 100001}. quick: all lengths with 4 (bearer,direction) pairs + all 64 pairs at 9 lengths; thorough: full product. Oracle: bit-level EEA3/EIA3 over the independent ZUC, pinned by 3GPP test sets.");
     let keys: Vec<(String, u32)> = vec![
         ("173d14ba5003731d7a60049470f00a29".into(), 0x66035492),
         ("c9e6cec4607c72db000aefa88385ab0a".into(), 0xa94059da),
@@ -168,7 +168,7 @@ pub fn run(ctx: &Arc<Ctx>) {
             cases.push(Case::Eia { key: key.clone(), count: *count, bearer, direction, length, msg: "seed".into(), flip: Some(length), extra: 1 });
         }
     }
-    ctx.note_bound(format!("LENGTH<=600 exhaustively plus 7 long lengths, {} cases", cases.len()));
+    ctx.note_bound(format!("LENGTH<={} exhaustively plus 7 long lengths, {} cases", lmax, cases.len()));
     ctx.sample(serde_json::to_value(&cases[10]).unwrap());
     ctx.sample(serde_json::to_value(&cases[cases.len() - 1]).unwrap());
     run_cases(ctx, &cases, 64, eval);
